@@ -199,11 +199,40 @@ def _pointwise1(cls, f, name):
     return c
 
 
+def c_Inflate(env):
+    def construct(ctx, func, dofmap, length):
+        if not (_isnd(func) and _isnd(dofmap) and isinstance(length, IR)):
+            raise PyRaise('AssertionError', note='Inflate.__post_init__')
+        nd_, nf = dofmap.attrs['ndim'], func.attrs['ndim']
+        if nd_ > nf:
+            raise PyRaise('AssertionError', note='Inflate: dofmap rank exceeds func rank')
+        dims = []
+        for l in dofmap.lens:
+            v = z3.simplify(lv(l))
+            if not z3.is_int_value(v):
+                raise Unsupported('Inflate with a dofmap of symbolic length (the scatter-sum is modelled for concrete dofmap shapes only)')
+            dims.append(v.as_long())
+        for x, y in zip(func.lens[nf - nd_:], dofmap.lens):
+            ctx.oblige('wellformed:Inflate-dofmap-shape-matches-trailing-axes', lv(x) == lv(y), kind='ensures')
+        positions = list(itertools.product(*[range(d) for d in dims]))
+
+        def elem(cx, idx):
+            k = idx[-1]
+            tot = z3.IntVal(0)
+            for p in positions:
+                pz = tuple(z3.IntVal(i) for i in p)
+                tot = tot + z3.If(dofmap.elem(cx, pz) == k, func.elem(cx, tuple(idx[:-1]) + pz), 0)
+            return tot
+        return ND('Inflate', tuple(func.lens[:nf - nd_]) + (length,), elem, attrs=dict(func=func, dofmap=dofmap, length=length), env=env)
+    return construct
+
+
 POW = z3.Function('numpy.power', z3.IntSort(), z3.IntSort(), z3.IntSort())
 SIGN = lambda x: z3.If(x > 0, 1, z3.If(x < 0, -1, 0))
 
 CONSTRUCTORS = {
     'Transpose': c_Transpose, 'TakeDiag': c_TakeDiag, 'Ravel': c_Ravel, 'Unravel': c_Unravel, 'InsertAxis': c_InsertAxis, 'Take': c_Take,
+    'Inflate': c_Inflate,
     'Power': _pointwise2('Power', lambda x, p: POW(x, p), ('func', 'power')),
     'Sign': _pointwise1('Sign', SIGN, 'func'),
     'Negative': _pointwise1('Negative', lambda x: -x, 'arg'),
@@ -553,6 +582,175 @@ def perms(n):
     return [p for p in itertools.permutations(range(n)) if p != tuple(range(n))]
 
 
+def _len(cx, name):
+    n = cx.int(name)
+    cx.assume(n >= 0)
+    return IR(cx, name, n)
+
+
+class UnravelTakediag(SwapRule):
+    cls, method = 'Unravel', '_takediag'
+
+    def build(self, cx, env):
+        rank, a1, a2 = self.cfg['rank'], self.cfg['axis1'], self.cfg['axis2']
+        F = base(cx, 'F', rank - 1, env)
+        s1, s2 = _len(cx, 'sh1'), _len(cx, 'sh2')
+        cx.assume(lv(F.lens[-1]) == lv(s1) * lv(s2))
+        X = CONSTRUCTORS['Unravel'](env)(cx, F, s1, s2)
+        equal_lengths(cx, X, a1, a2)
+        return X, (a1, a2), spec_takediag(X, a1, a2)
+
+
+class UnravelTake(SwapRule):
+    cls, method = 'Unravel', '_take'
+
+    def build(self, cx, env):
+        rank, axis, ir = self.cfg['rank'], self.cfg['axis'], self.cfg['index_rank']
+        F = base(cx, 'F', rank - 1, env)
+        s1, s2 = _len(cx, 'sh1'), _len(cx, 'sh2')
+        cx.assume(lv(F.lens[-1]) == lv(s1) * lv(s2))
+        X = CONSTRUCTORS['Unravel'](env)(cx, F, s1, s2)
+        I = index_array(cx, 'I', ir, env, lv(X.lens[axis]))
+        return X, (I, axis), spec_take(X, I, axis)
+
+
+class _UnravelRule(SwapRule):
+    method = '_unravel'
+
+    def build(self, cx, env):
+        X = self.node(cx, env)
+        axis = self.cfg['axis']
+        s1, s2 = _len(cx, 'sh1'), _len(cx, 'sh2')
+        cx.assume(lv(X.lens[axis]) == lv(s1) * lv(s2))
+        return X, (axis, (s1, s2)), spec_unravel(X, axis, (s1, s2))
+
+
+class RavelUnravel(_UnravelRule):
+    cls = 'Ravel'
+
+    def node(self, cx, env):
+        return CONSTRUCTORS['Ravel'](env)(cx, base(cx, 'F', self.cfg['rank'] + 1, env))
+
+
+class InsertAxisUnravel(_UnravelRule):
+    cls = 'InsertAxis'
+
+    def node(self, cx, env):
+        return CONSTRUCTORS['InsertAxis'](env)(cx, base(cx, 'F', self.cfg['rank'] - 1, env), _len(cx, 'length'))
+
+
+class TransposeUnravel(_UnravelRule):
+    cls = 'Transpose'
+
+    def node(self, cx, env):
+        axes = tuple(self.cfg['axes'])
+        return CONSTRUCTORS['Transpose'](env)(cx, base(cx, 'F', len(axes), env), axes)
+
+
+class _PowerRule(SwapRule):
+    method = '_power'
+
+    def build(self, cx, env):
+        X = self.node(cx, env)
+        N = base(cx, 'N', X.attrs['ndim'], env, lens=list(X.lens), child_protocol=False)
+        return X, (N,), spec_pointwise(X, [N], lambda x, p: POW(x, p))
+
+
+class RavelPower(_PowerRule, RavelUnravel):
+    method = '_power'
+
+
+class TransposePower(_PowerRule, TransposeUnravel):
+    method = '_power'
+
+
+class _SignRule(SwapRule):
+    method = '_sign'
+
+    def build(self, cx, env):
+        X = self.node(cx, env)
+        return X, (), spec_pointwise(X, [], SIGN)
+
+
+class RavelSign(_SignRule, RavelUnravel):
+    method = '_sign'
+
+
+class TransposeSign(_SignRule, TransposeUnravel):
+    method = '_sign'
+
+
+class InsertAxisSign(_SignRule, InsertAxisUnravel):
+    method = '_sign'
+
+
+class TakeDiagTake(SwapRule):
+    cls, method = 'TakeDiag', '_take'
+
+    def build(self, cx, env):
+        rank, axis, ir = self.cfg['rank'], self.cfg['axis'], self.cfg['index_rank']
+        F = base(cx, 'F', rank + 1, env)
+        cx.assume(lv(F.lens[-1]) == lv(F.lens[-2]))
+        X = CONSTRUCTORS['TakeDiag'](env)(cx, F)
+        I = index_array(cx, 'I', ir, env, lv(X.lens[axis]))
+        return X, (I, axis), spec_take(X, I, axis)
+
+
+class TakeTake(SwapRule):
+    cls, method = 'Take', '_take'
+
+    def build(self, cx, env):
+        fr, jr, axis, ir = self.cfg['func_rank'], self.cfg['indices_rank'], self.cfg['axis'], self.cfg['index_rank']
+        F = base(cx, 'F', fr, env)
+        J = index_array(cx, 'J', jr, env, lv(F.lens[-1]))
+        J.methods.update(base(cx, 'Jp', jr, env).methods)  # the indices array obeys the protocol, too (its own elements)
+        X = CONSTRUCTORS['Take'](env)(cx, F, J)
+        I = index_array(cx, 'I', ir, env, lv(X.lens[axis]))
+        return X, (I, axis), spec_take(X, I, axis)
+
+
+class TakeTakediag(SwapRule):
+    cls, method = 'Take', '_takediag'
+
+    def build(self, cx, env):
+        fr, jr, a1, a2 = self.cfg['func_rank'], self.cfg['indices_rank'], self.cfg['axis1'], self.cfg['axis2']
+        F = base(cx, 'F', fr, env)
+        J = index_array(cx, 'J', jr, env, lv(F.lens[-1]))
+        X = CONSTRUCTORS['Take'](env)(cx, F, J)
+        equal_lengths(cx, X, a1, a2)
+        return X, (a1, a2), spec_takediag(X, a1, a2)
+
+
+def _inflate_node(cx, env, cfg):
+    fr, dshape = cfg['func_rank'], tuple(cfg['dofmap_shape'])
+    lens = [_len(cx, 'F.shape%d' % i) for i in range(fr - len(dshape))] + [IR(cx, 'F.shape%d' % (fr - len(dshape) + i), z3.IntVal(d)) for i, d in enumerate(dshape)]
+    F = base(cx, 'F', fr, env, lens=lens)
+    length = _len(cx, 'length')
+    D = index_array(cx, 'D', len(dshape), env, lv(length))
+    D.attrs['shape'] = tuple(lens[fr - len(dshape):])
+    return CONSTRUCTORS['Inflate'](env)(cx, F, D, length)
+
+
+class InflateTake(SwapRule):
+    cls, method = 'Inflate', '_take'
+
+    def build(self, cx, env):
+        X = _inflate_node(cx, env, self.cfg)
+        axis, ir = self.cfg['axis'], self.cfg['index_rank']
+        I = index_array(cx, 'I', ir, env, lv(X.lens[axis]))
+        return X, (I, axis), spec_take(X, I, axis)
+
+
+class InflateTakediag(SwapRule):
+    cls, method = 'Inflate', '_takediag'
+
+    def build(self, cx, env):
+        X = _inflate_node(cx, env, self.cfg)
+        a1, a2 = self.cfg['axis1'], self.cfg['axis2']
+        equal_lengths(cx, X, a1, a2)
+        return X, (a1, a2), spec_takediag(X, a1, a2)
+
+
 PERMS3 = [(1, 2, 0), (2, 0, 1), (0, 2, 1)]  # both 3-cycles (axes differ from their inverse) and a transposition
 
 
@@ -577,4 +775,30 @@ def contracts():
         for axis in range(rank):
             for ir in (1, 2):
                 cs.append(RavelTake(dict(rank=rank, axis=axis, index_rank=ir)))
+    cs.append(UnravelTakediag(dict(rank=4, axis1=0, axis2=1)))
+    cs.append(UnravelTakediag(dict(rank=3, axis1=0, axis2=2)))
+    cs.append(UnravelTake(dict(rank=3, axis=0, index_rank=2)))
+    cs.append(UnravelTake(dict(rank=3, axis=1, index_rank=1)))
+    for axis in (0, 1):
+        cs.append(RavelUnravel(dict(rank=2, axis=axis)))
+        cs.append(InsertAxisUnravel(dict(rank=2, axis=axis)))
+    for p in [(1, 0), (1, 2, 0), (2, 0, 1)]:
+        for axis in range(len(p)):
+            cs.append(TransposeUnravel(dict(axes=list(p), axis=axis)))
+    cs += [RavelPower(dict(rank=1)), RavelPower(dict(rank=2)), TransposePower(dict(axes=[1, 0])), TransposePower(dict(axes=[1, 2, 0])),
+           RavelSign(dict(rank=2)), TransposeSign(dict(axes=[2, 0, 1])), InsertAxisSign(dict(rank=2))]
+    for axis in (0, 1):
+        cs.append(TakeDiagTake(dict(rank=2, axis=axis, index_rank=2)))
+    for fr, jr in ((2, 1), (2, 2), (1, 2)):
+        for axis in range(fr - 1 + jr):
+            cs.append(TakeTake(dict(func_rank=fr, indices_rank=jr, axis=axis, index_rank=2 if axis == 0 else 1)))
+    cs.append(TakeTakediag(dict(func_rank=3, indices_rank=1, axis1=0, axis2=1)))
+    cs.append(TakeTakediag(dict(func_rank=3, indices_rank=1, axis1=0, axis2=2)))
+    for axis in (0, 1):
+        cs.append(InflateTake(dict(func_rank=3, dofmap_shape=[2], axis=axis, index_rank=2)))
+    cs.append(InflateTake(dict(func_rank=3, dofmap_shape=[2, 2], axis=0, index_rank=1)))
+    cs.append(InflateTake(dict(func_rank=1, dofmap_shape=[], axis=0, index_rank=1)))
+    for a1, a2 in ((0, 1), (0, 2), (1, 2)):
+        cs.append(InflateTakediag(dict(func_rank=3, dofmap_shape=[2], axis1=a1, axis2=a2)))
+    cs.append(InflateTakediag(dict(func_rank=3, dofmap_shape=[2, 2], axis1=0, axis2=1)))
     return cs
